@@ -359,6 +359,11 @@ class AV:
     def sadd(self, s):
         return self._uf("sadd", s, self)
 
+    def vreduce(self, name):
+        """np.max / min / sum / mean of an abstract vector: an uninterpreted real function of the vector"""
+        f = z3.Function("vred_" + name, self.ctx.Vec, z3.RealSort())
+        return X(f(self.t))
+
     @property
     def size(self):
         return X(z3.Int("dim"))
